@@ -24,6 +24,15 @@ NOT_APPLICABLE = {
 
 # id -> (technique, level text, level note, design ref)
 CLAIMS = {
+    'C13': ('loader def-use over the class call graph, HDF5 key-set comparison with class-tuple loop expansion, '
+            'constructor/loader constant agreement, YAML registration tables, stale-loop-variable def-use lint',
+            'Static, exhaustive over the five addhdf5/loadhdf5 pairs, three converter pairs and six YAML registrations: '
+            'decides that a reloaded object has every attribute its methods read, that every key read was written, that '
+            'sub-objects return to the attribute they came from, that initial constants agree, that the caches are saved '
+            'and restored together, and that the YAML tables agree. Necessary for identical results after reload for '
+            'every input; bit-equality of numbers is not decided.',
+            'trusts CPython ast; h5py/yaml semantics (group[key] round-trips a dataset) are assumed',
+            'DESIGN.md §4 C13'),
     'C28': ('linear-form guard/extent agreement (bounds), who-may-write lint with local alias tracking (owner), '
             'paired-update shape, copy-table parity, statement-order rule in POSCAR_occ',
             'Static, exhaustive over the Supercell class and every function of the package and bin/: decides that the '
